@@ -396,7 +396,20 @@ def check(rep, tier, seed):
     n1 = len(pnames) if tier != "quick" else 30
     k2, k3, k4 = (10, 6, 2) if tier == "quick" else (60, 40, 12)
 
+    exact_bases = {"v-fix2", "v-fix7", "v-fixmax", "v-fixmin", "v-big", "v-bigneg", "v-huge", "v-ratio", "v-ratneg"}
+
+    def astronomical(name, text):
+        # (expt <exact base other than 0, 1, -1> <fixnum of magnitude 2^62>): the exact result has 2^62 bits or more - resource
+        # exhaustion by construction (see the numeric family), and minutes of uninterruptible C before the heap limit is reached
+        if name != "expt":
+            return False
+        parts = text[1:-1].split()
+        return len(parts) == 3 and parts[1] in exact_bases and parts[2] in ("v-fixmax", "v-fixmin")
+
     def calls_for(name):
+        return [it for it in calls_for_all(name) if not astronomical(name, it[1])]
+
+    def calls_for_all(name):
         out = [("eval", "(%s)" % name)]
         vals = pnames if tier != "quick" else rng.sample(pnames, n1)
         for v in vals:
